@@ -1,40 +1,40 @@
 #!/bin/bash
 # tools/seeded_regress.sh [seed-id-prefix ...]
 # For every seeded change listed in /verif/seeded/index.json (or only those whose id starts with one of the
-# given prefixes): apply seeded/<id>/patch.diff to /repo, run the quick checks named in index.json, undo the
-# change (git -C /repo checkout -- .), record what each check reported in seeded/<id>/check-<prop>.txt and
-# seeded/<id>/meta.json, and finally regenerate seeded/SUMMARY.md.  /verif/evidence is restored afterwards:
+# given prefixes): apply seeded/<id>/patch.diff to the lane's tree, run the quick checks named in index.json,
+# undo the change (git checkout -- .), record what each check reported in seeded/<id>/check-<prop>.txt and
+# seeded/<id>/.regress, and finally regenerate seeded/SUMMARY.md.  /verif/evidence is restored afterwards:
 # evidence must describe the unchanged tree.
+#
+# Lanes.  By default the tree is /repo itself and the verification root is /verif.  To get through all seeds
+# in reasonable time several lanes can run side by side: LANE_REPO=<scratch worktree of /repo at HEAD>
+# LANE_ROOT=<copy of /verif> run the same commands against that worktree (VERIF_REPO/VERIF_ROOT); results
+# still go to /verif/seeded/<id>/.  LANE_IDS=<file> restricts a lane to the ids listed in the file.
 set -u
+repo=${LANE_REPO:-/repo}
+root=${LANE_ROOT:-/verif}
 cd /verif
-if [ -n "$(git -C /repo status --porcelain)" ]; then echo "/repo is not clean"; exit 2; fi
-ids=$(python3 - "$@" <<'EOF'
-import json,sys
-d=json.load(open('/verif/seeded/index.json'))
-pre=sys.argv[1:]
-for s in d['seeds']:
-    if not pre or any(s['id'].startswith(p) for p in pre):
-        print(s['id']+' '+','.join(s['checks']))
-EOF
-)
+if [ -n "$(git -C $repo status --porcelain)" ]; then echo "$repo is not clean"; exit 2; fi
+ids=$(python3 /verif/tools/seeded_ids.py "$@")
 while read -r id props; do
   [ -z "$id" ] && continue
   out=/verif/seeded/$id
-  if ! git -C /repo apply --check $out/patch.diff 2>/dev/null; then echo "$id: patch does not apply"; continue; fi
-  git -C /repo apply $out/patch.diff
+  if ! git -C $repo apply --check $out/patch.diff 2>/dev/null; then echo "$id: patch does not apply"; continue; fi
+  git -C $repo apply $out/patch.diff
   res=""
   for p in ${props//,/ }; do
     t0=$(date +%s)
-    o=$(/verif/bin/gosym check $p quick 2>&1); rc=$?
+    o=$(VERIF_REPO=$repo VERIF_ROOT=$root $root/bin/gosym check $p quick 2>&1); rc=$?
     t1=$(date +%s)
-    echo "$o" | grep -a "^VIOLATION\|harness=\|NO-VERDICT\|HARNESS-BROKEN" | head -6 > $out/check-$p.txt
+    echo "$o" | grep -a "^VIOLATION\|harness=\|NO-VERDICT\|HARNESS-BROKEN" | sed "s|$root/out|/verif/out|" | head -6 > $out/check-$p.txt
     v=$(echo "$o" | grep -ac "^VIOLATION")
     a=$(echo "$o" | grep -a '^  harness=' | sed 's/.*harness=\([^ ]*\) assertion=\([^ ]*\).*confirmed=\([^ ]*\).*/\1:\2:\3/' | sort -u | tr '\n' ' ')
     echo "$id check $p: rc=$rc violations=$v $a ($((t1-t0))s)"
     res="$res$p $rc $v $((t1-t0)) $a;"
   done
-  git -C /repo checkout -- .
+  git -C $repo checkout -- .
   echo "$res" > $out/.regress
 done <<< "$ids"
-git -C /verif checkout -- evidence 2>/dev/null
-python3 /verif/tools/seeded_summary.py
+if [ "$root" = /verif ]; then git -C /verif checkout -- evidence 2>/dev/null; fi
+[ -z "${LANE_IDS:-}" ] && python3 /verif/tools/seeded_summary.py
+exit 0
